@@ -299,11 +299,68 @@ fn sweep_family<T: Fam>(ctx: &Ctx, ln: u32, max: u32) {
     });
 }
 
+/// `io::Write` sink that accepts at most `max` bytes per call (a legal short write).
+pub struct ShortSink {
+    pub out: Vec<u8>,
+    pub max: usize,
+}
+impl std::io::Write for ShortSink {
+    fn write(&mut self, buf: &[u8]) -> std::io::Result<usize> {
+        let n = buf.len().min(self.max);
+        self.out.extend_from_slice(&buf[..n]);
+        Ok(n)
+    }
+    fn flush(&mut self) -> std::io::Result<()> {
+        Ok(())
+    }
+}
+
+/// The io-sink entry points must produce the same document as `to_string`, whatever the sink's
+/// write granularity.
+fn io_sink_agrees<T: Fam>(v: &T) -> Result<u64, String> {
+    let Ok(reference) = guarded_mut(|| quick_xml::se::to_string(v).map_err(|e| format!("{:?}", e))).map_err(|p| format!("panic: {}", p))? else { return Ok(0) };
+    let mut n = 0;
+    for max in [1usize, 2, 3, 7, usize::MAX] {
+        let got = guarded_mut(|| {
+            let mut sink = ShortSink { out: Vec::new(), max };
+            quick_xml::se::to_utf8_io_writer(&mut sink, v).map(|_| sink.out).map_err(|e| format!("{:?}", e))
+        })
+        .map_err(|p| format!("panic: {}", p))?;
+        n += 1;
+        match got {
+            Ok(bytes) if bytes == reference.as_bytes() => {}
+            Ok(bytes) => return Err(format!("to_utf8_io_writer into a sink that accepts {} byte(s) per call wrote {:?}, to_string gives {:?}", max, lossy(&bytes), reference)),
+            Err(e) => return Err(format!("to_utf8_io_writer failed with {} although to_string succeeded", e)),
+        }
+        // Writer::write_serializable goes through the same adapter
+        let got = guarded_mut(|| {
+            let mut w = quick_xml::writer::Writer::new(ShortSink { out: Vec::new(), max });
+            w.write_serializable("r", v).map(|_| w.into_inner().out).map_err(|e| format!("{:?}", e))
+        })
+        .map_err(|p| format!("panic: {}", p))?;
+        n += 1;
+        let want = guarded_mut(|| quick_xml::se::to_string_with_root("r", v).map_err(|e| format!("{:?}", e))).map_err(|p| format!("panic: {}", p))?;
+        match (got, want) {
+            (Ok(bytes), Ok(w)) if bytes == w.as_bytes() => {}
+            (Err(_), Err(_)) => {}
+            (g, w) => return Err(format!("Writer::write_serializable into a sink that accepts {} byte(s) per call gives {:?}, to_string_with_root gives {:?}", max, g.map(|b| lossy(&b)), w)),
+        }
+    }
+    Ok(n)
+}
+
 fn sweep_values<T: Fam>(ctx: &Ctx, ln: u32, level: usize) {
     let vals = T::values(level);
     let cfgs = SerCfg::all();
     ctx.layer(&format!("values.{}", T::NAME), ln, vals.len() as u64, json!({"values": vals.len(), "serializer_configurations": cfgs.len()}), |i, acc| {
         let v = &vals[i as usize];
+        match io_sink_agrees(v) {
+            Ok(n) => {
+                acc.evaluations += n;
+                acc.count("io_sink_serializations", n);
+            }
+            Err(what) => acc.violation((ln, i), format!("{} value {:?}: {}", T::NAME, v, what), json!({"kind": "value", "type": T::NAME, "index": i, "cfg": 8, "level": level})),
+        }
         for &cfg in &cfgs {
             acc.evaluations += 1;
             acc.traces += 1;
@@ -328,7 +385,8 @@ fn sweep_values<T: Fam>(ctx: &Ctx, ln: u32, level: usize) {
 
 pub fn run(ctx: &Ctx) {
     ctx.set_rule(
-        "(1) every value of the C06 type family x 24 serializer configurations; (2) per payload position of each family type, every \
+        "(1) every value of the C06 type family x 24 serializer configurations, and the io-sink entry points (to_utf8_io_writer, \
+         Writer::write_serializable) into sinks that accept 1, 2, 3, 7 or all bytes per write call, which must produce the bytes of to_string; (2) per payload position of each family type, every \
          string up to length 3/4 over {< > & ' \" ] - NUL newline space a}, INCLUDING strings outside the round-trip domain (leading / \
          trailing blanks, empty list items); (3) out-of-domain cases x the same strings: maps with 18 hostile keys ('' 1a 'a b' a>b \
          p:k @ @a '@a b' @< $text $value xmlns:a < a/ ...), the same pool as root name, as run-time struct field name and struct name, \
@@ -400,7 +458,7 @@ pub fn replay(case: &Value) -> Result<(), String> {
                         let v = &<$t as Fam>::values(case["level"].as_u64().unwrap_or(0) as usize)[case["index"].as_u64().unwrap() as usize];
                         let out = ser(v, cfg);
                         println!("{:?} {:?}\noutput: {:?}", v, cfg, out);
-                        result = judge(&out, &Err("none".into()), "").and_then(|ok| if ok { Ok(()) } else { Err("serializer refused the value".into()) });
+                        result = judge(&out, &Err("none".into()), "").and_then(|ok| if ok { Ok(()) } else { Err("serializer refused the value".into()) }).and_then(|_| io_sink_agrees(v).map(|_| ()));
                     }
                 } )* };
             }
